@@ -20,6 +20,7 @@ import z3
 
 import fsic
 import fsic.core.models as fmodels
+import vlib
 from loopmodel import NONE, RAISE, WARN, Outcome, Script, check_names, make_scripted, ref_solve_t
 from symx.core import Ctx, Inconclusive, PathAbort, cur, timed_check
 from symx.npshim import NpShim
@@ -41,6 +42,9 @@ def shimmed():
         yield
     finally:
         fmodels.np = old
+
+
+KIND_MAX = [4 if vlib.tier() == 'quick' else 5]   # pmap workers are forked from the check's process: same argv
 
 
 def default_cfg(**kw) -> dict:
@@ -95,11 +99,11 @@ def _assume_domain(ctx: Ctx, cfg: dict, names, cells, s: Script, tol, min_iter, 
         ctx.assume(z3.And(offset.t >= -L - 1, offset.t <= L + 1), f'-L-1 <= offset <= L+1 (L={L})')
     for p in range(1, B + 1):
         if isinstance(s.kind[p], SInt):
-            ctx.assume(z3.And(s.kind[p].t >= 0, s.kind[p].t <= 3), f'fault kind of pass {p} in {{none,warn,raise,raise SolutionError}}')
+            ctx.assume(z3.And(s.kind[p].t >= 0, s.kind[p].t <= KIND_MAX[0]), f'fault kind of pass {p} in {{none,RuntimeWarning,raise,raise SolutionError,UserWarning,DeprecationWarning}}[:{KIND_MAX[0] + 1}]')
             ctx.assume(z3.And(s.fs[p].t >= 0, s.fs[p].t <= max(N, 1) - 1), f'fault statement of pass {p} in range')
     for h in (s.kb, s.ka):
         if isinstance(h, SInt):
-            ctx.assume(z3.And(h.t >= 0, h.t <= 2), 'hook fault kind in {none,warn,raise}')
+            ctx.assume(z3.And(h.t >= 0, h.t <= 3), 'hook fault kind in {none,RuntimeWarning,raise,UserWarning}')
     if cfg['finite']:
         fin = []
         for n in check_names(N):
@@ -139,6 +143,11 @@ def _build_model(cfg: dict, cells: Dict[str, list], script: Script, dtype):
         arr = m.__dict__['_' + n]
         for j, v in enumerate(vals):
             arr[j] = v
+    if cfg.get('extra_var'):
+        # a variable added to the INSTANCE after construction (the class lists do not know it)
+        m.add_variable('Q', 0.0, dtype=dtype)
+        for j in range(cfg['L']):
+            m.__dict__['_Q'][j] = 1000.5 + j
     m.attach(script)
     return m
 
